@@ -87,6 +87,19 @@ theorem readOctet (n : Nat) (hn : n < 256) (rest : Str) (hr : Stops isDig10 rest
 
 theorem stops_dot (r : Str) : Stops isDig10 ('.' :: r) := Or.inr ⟨'.', r, rfl, dot_not_dig⟩
 
+theorem readIpv4_show (a b c d : Nat) (ha : a < 256) (hb : b < 256) (hc : c < 256) (hd : d < 256)
+    (rest : Str) (hr : Stops isDig10 rest) :
+    readIpv4 (showNat a ++ ('.' :: (showNat b ++ ('.' :: (showNat c ++ ('.' :: (showNat d ++ rest))))))) =
+      some ([a, b, c, d], rest) := by
+  unfold readIpv4
+  rw [readOctet _ ha _ (stops_dot _)]
+  simp only []
+  rw [readOctet _ hb _ (stops_dot _)]
+  simp only []
+  rw [readOctet _ hc _ (stops_dot _)]
+  simp only []
+  rw [readOctet _ hd _ hr]
+
 /-- **IPv4 round trip**: `Ipv4Addr::from_str(addr.to_string()) == Ok(addr)`, for every address -/
 theorem rt4 (x : Ip4) : parse4 (show4 x) = some x := by
   obtain ⟨a, b, c, d⟩ := x
